@@ -19,6 +19,7 @@ import (
 	"math/big"
 	"net/netip"
 	"reflect"
+	"regexp"
 	"sort"
 	"strings"
 	"testing"
@@ -1476,6 +1477,9 @@ func TestVerifC10(t *testing.T) {
 		}
 		c10RunProgram(t, o, g, p, routes, optsL)
 		o.stat("programs", 1)
+		for k := 0; k < 4; k++ {
+			c10CondOracle(t, o, g)
+		}
 		{
 			kind := g.r.intn(3)
 			pool := []int{len(c10Comms), 5, len(c10Larges)}[kind]
@@ -1696,4 +1700,254 @@ func c10Corpus(t *testing.T, o *vOut, g *c10Gen) {
 				"action": "set-ext-community remove rt:^65001:70000$", "ext_before": 2, "ext_after": len(res.GetExtCommunities())})
 		}
 	}
+}
+
+// ---------- set conditions as the policy engine evaluates them, against the documented meaning ----------
+//
+// The Lean model abstracts a pattern to an exact value (the regular-expression side is C13's).  This
+// section exercises the CONDITIONS on sets with several patterns of the same AS in every compiled
+// shape (exact value, fixed-AS bitmap ranges and alternations, AS wildcards, AS-independent local
+// parts, general regular expressions), all three match options, and routes carrying subsets of the
+// matching communities.  The expected verdict is computed without any gobgp matcher: Go's regexp on
+// the rendered community, per pattern, then any / all / invert as docs/sources/policy.md defines them.
+
+var c10reASes = []uint32{65000, 65001, 100}
+var c10reLocals = []uint32{0, 1, 2, 10, 100, 105, 150, 199, 200, 210, 1000, 1999, 65535}
+
+// community patterns for AS a (shape name, pattern as configured)
+func (g *c10Gen) commPattern(a uint32) (string, string) {
+	r := g.r
+	n := c10reLocals[r.intn(len(c10reLocals))]
+	m := c10reLocals[r.intn(len(c10reLocals))]
+	switch r.intn(14) {
+	case 0:
+		return "exact", fmt.Sprintf("^%d:%d$", a, n)
+	case 1:
+		return "plain", fmt.Sprintf("%d:%d", a, n)
+	case 2:
+		return "bitmap-dots", fmt.Sprintf("^%d:1..$", a)
+	case 3:
+		return "bitmap-dots", fmt.Sprintf("^%d:%d.$", a, r.pick(1, 10, 20, 21))
+	case 4:
+		return "bitmap-alt", fmt.Sprintf("^%d:(%d|%d)$", a, n, m)
+	case 5:
+		return "bitmap-class", fmt.Sprintf("^%d:[12]0*$", a)
+	case 6:
+		return "bitmap-digits", fmt.Sprintf("^%d:2\\d\\d$", a)
+	case 7:
+		return "wildcard", fmt.Sprintf("^%d:.*$", a)
+	case 8:
+		return "wildcard", fmt.Sprintf("^%d:\\d+$", a)
+	case 9:
+		return "alternation", fmt.Sprintf("^%d:%d$|^%d:%d$", a, n, a, m)
+	case 10:
+		return "regexp", fmt.Sprintf("^%d:1[0-9]+$", a)
+	case 11:
+		return "regexp-as", fmt.Sprintf("^6500[01]:%d$", n)
+	case 12:
+		return "as-independent", fmt.Sprintf("^\\d+:%d$", n)
+	}
+	return "as-independent", fmt.Sprintf("^[0-9]+:(%d|%d)$", n, m)
+}
+
+func (g *c10Gen) largePattern(a uint32) (string, string) {
+	r := g.r
+	n := r.pick(0, 1, 2, 100)
+	m := r.pick(0, 1, 2, 200)
+	switch r.intn(7) {
+	case 0:
+		return "exact", fmt.Sprintf("^%d:%d:%d$", a, n, m)
+	case 1:
+		return "plain", fmt.Sprintf("%d:%d:%d", a, n, m)
+	case 2:
+		return "wildcard", fmt.Sprintf("^%d:%d:.*$", a, n)
+	case 3:
+		return "regexp", fmt.Sprintf("^%d:\\d+:%d$", a, m)
+	case 4:
+		return "regexp", fmt.Sprintf("^%d:(%d|%d):[0-9]+$", a, n, m)
+	case 5:
+		return "unanchored", fmt.Sprintf("%d:%d", a, n)
+	}
+	return "alternation", fmt.Sprintf("^%d:%d:%d$|^%d:%d:%d$", a, n, m, a, m, n)
+}
+
+var c10rePlainComm = regexp.MustCompile(`^\d+:\d+$`)
+var c10rePlainLarge = regexp.MustCompile(`^\d+:\d+:\d+$`)
+
+// the documented reading of a configured pattern: a plain value is that value, anything else is a
+// regular expression searched in the rendered community
+func c10DocRegexp(p string, plain *regexp.Regexp) *regexp.Regexp {
+	if plain.MatchString(p) {
+		return regexp.MustCompile("^" + regexp.QuoteMeta(p) + "$")
+	}
+	return regexp.MustCompile(p)
+}
+
+func c10DocVerdict(opt int, perPattern []bool) bool {
+	anyM, allM := false, true
+	for _, b := range perPattern {
+		anyM = anyM || b
+		allM = allM && b
+	}
+	switch opt {
+	case 1:
+		return allM
+	case 2:
+		return !anyM
+	}
+	return anyM
+}
+
+func c10CondOracle(t *testing.T, o *vOut, g *c10Gen) {
+	r := g.r
+	kind := r.pick(0, 0, 1, 1, 2) // 0 community, 1 ext-community, 2 large community
+	kindName := []string{"community", "ext-community", "large-community"}[kind]
+	optName := []string{"any", "all", "invert"}
+	a := c10reASes[r.intn(len(c10reASes))]
+	np := 2 + r.intn(3)
+	var pats, shapes []string
+	var subs []int
+	for i := 0; i < np; i++ {
+		as := a
+		if r.chance(15) {
+			as = c10reASes[r.intn(len(c10reASes))]
+		}
+		var sh, p string
+		switch {
+		case kind == 2:
+			sh, p = g.largePattern(as)
+		case kind == 1 && r.chance(35):
+			// the shape an ext-community set compiles to a fixed-AS bitmap
+			sh, p = "bitmap-alt", fmt.Sprintf("^%d:(%d|%d)$", as, c10reLocals[r.intn(len(c10reLocals))], c10reLocals[r.intn(len(c10reLocals))])
+		default:
+			sh, p = g.commPattern(as)
+		}
+		sub := 2
+		if kind == 1 {
+			sub = r.pick(2, 2, 2, 3)
+			pats = append(pats, c10SubNames[sub]+":"+p)
+		} else {
+			pats = append(pats, p)
+		}
+		subs = append(subs, sub)
+		shapes = append(shapes, sh)
+		o.stat("condset_"+kindName+"_"+sh, 1)
+	}
+	// documented regexps
+	docs := make([]*regexp.Regexp, np)
+	for i, p := range pats {
+		switch kind {
+		case 0:
+			docs[i] = c10DocRegexp(p, c10rePlainComm)
+		case 1:
+			docs[i] = c10DocRegexp(p[strings.IndexByte(p, ':')+1:], c10rePlainComm)
+		case 2:
+			docs[i] = c10DocRegexp(p, c10rePlainLarge)
+		}
+	}
+	// the real objects, through the configuration path: one statement per match option
+	cfg := &oc.RoutingPolicy{}
+	switch kind {
+	case 0:
+		cfg.DefinedSets.BgpDefinedSets.CommunitySets = []oc.CommunitySet{{CommunitySetName: "s", CommunityList: pats}}
+	case 1:
+		cfg.DefinedSets.BgpDefinedSets.ExtCommunitySets = []oc.ExtCommunitySet{{ExtCommunitySetName: "s", ExtCommunityList: pats}}
+	case 2:
+		cfg.DefinedSets.BgpDefinedSets.LargeCommunitySets = []oc.LargeCommunitySet{{LargeCommunitySetName: "s", LargeCommunityList: pats}}
+	}
+	ap := map[string]oc.ApplyPolicy{}
+	for opt := 0; opt < 3; opt++ {
+		st := oc.Statement{Name: "st" + optName[opt]}
+		switch kind {
+		case 0:
+			st.Conditions.BgpConditions.MatchCommunitySet = oc.MatchCommunitySet{CommunitySet: "s", MatchSetOptions: c10MatchOpt(opt)}
+		case 1:
+			st.Conditions.BgpConditions.MatchExtCommunitySet = oc.MatchExtCommunitySet{ExtCommunitySet: "s", MatchSetOptions: c10MatchOpt(opt)}
+		case 2:
+			st.Conditions.BgpConditions.MatchLargeCommunitySet = oc.MatchLargeCommunitySet{LargeCommunitySet: "s", MatchSetOptions: c10MatchOpt(opt)}
+		}
+		st.Actions.RouteDisposition = oc.ROUTE_DISPOSITION_REJECT_ROUTE
+		cfg.PolicyDefinitions = append(cfg.PolicyDefinitions, oc.PolicyDefinition{Name: "p" + optName[opt], Statements: []oc.Statement{st}})
+		ap["peer-"+optName[opt]] = oc.ApplyPolicy{Config: oc.ApplyPolicyConfig{ImportPolicyList: []string{"p" + optName[opt]}, DefaultImportPolicy: oc.DEFAULT_POLICY_TYPE_ACCEPT_ROUTE}}
+	}
+	rp := NewRoutingPolicy(slog.New(slog.NewTextHandler(discardWriter{}, nil)))
+	if err := rp.Reset(cfg, ap); err != nil {
+		t.Fatalf("C10 cond oracle: configuration %q rejected: %v", pats, err)
+	}
+	// routes: subsets of communities of the set's AS (and a few of other ASes)
+	nRoutes := 6
+	for k := 0; k < nRoutes; k++ {
+		rt := &c10Route{id: k, nlri: netip.MustParsePrefix("10.8.0.0/16"), src: c10Sources[0], nh: netip.MustParseAddr("10.0.0.1"), hasPath: true, spare: r.pick(0, 2)}
+		org := uint8(0)
+		rt.origin = &org
+		nc := r.pick(0, 1, 1, 1, 2, 2, 3)
+		var rendered []string
+		for i := 0; i < nc; i++ {
+			as := a
+			if r.chance(20) {
+				as = c10reASes[r.intn(len(c10reASes))]
+			}
+			loc := c10reLocals[r.intn(len(c10reLocals))]
+			switch kind {
+			case 0:
+				rt.hasComm = true
+				rt.comms = append(rt.comms, as<<16|loc)
+				rendered = append(rendered, fmt.Sprintf("%d:%d", as, loc))
+			case 1:
+				e := c10Ext{trans: !r.chance(15), kind: 0, sub: r.pick(2, 2, 2, 3), as: as, la: loc}
+				if r.chance(10) {
+					e.la = 70000
+				}
+				if r.chance(8) {
+					e.kind, e.as = 1, 0x0a000001
+				}
+				rt.exts = append(rt.exts, e)
+			case 2:
+				l := c10Large{as, uint32(r.pick(0, 1, 2, 100)), uint32(r.pick(0, 1, 2, 200))}
+				rt.larges = append(rt.larges, l)
+				rendered = append(rendered, fmt.Sprintf("%d:%d:%d", l.a, l.b, l.c))
+			}
+		}
+		stored := rt.path()
+		// per-pattern documented match
+		per := make([]bool, np)
+		for i := range pats {
+			switch kind {
+			case 0, 2:
+				for _, s := range rendered {
+					if docs[i].MatchString(s) {
+						per[i] = true
+					}
+				}
+			case 1:
+				// "match only with transitive community" (RFC 7153); sub-type as named by the pattern
+				for _, x := range stored.GetExtCommunities() {
+					typ, st := x.GetTypes()
+					if typ < bgp.EC_TYPE_NON_TRANSITIVE_TWO_OCTET_AS_SPECIFIC && int(st) == subs[i] && docs[i].MatchString(x.String()) {
+						per[i] = true
+					}
+				}
+			}
+		}
+		for opt := 0; opt < 3; opt++ {
+			want := c10DocVerdict(opt, per)
+			real := rp.statementMap["st"+optName[opt]]
+			got := real.Conditions[0].Evaluate(stored, nil)
+			o.stat(fmt.Sprintf("condset_%s_%s_%s", kindName, optName[opt], c10B(want)), 1)
+			detail := map[string]any{"set_type": kindName, "patterns": pats, "shapes": shapes, "option": optName[opt],
+				"route_carries": rendered, "route": c10RouteLine(rt), "per_pattern_documented": per, "documented": want}
+			if got != want {
+				detail["condition_evaluate"] = got
+				o.fail("condition-verdict-differs-from-documented:"+kindName+":"+optName[opt], detail)
+				continue
+			}
+			// the statement rejects exactly when the condition holds; the default accepts
+			res := rp.ApplyPolicy("peer-"+optName[opt], POLICY_DIRECTION_IMPORT, stored, nil)
+			if (res == nil) != want {
+				detail["apply_policy_rejected"] = res == nil
+				o.fail("condition-verdict-differs-from-documented:"+kindName+":"+optName[opt]+":statement", detail)
+			}
+		}
+	}
+	o.stat("condset_scenarios", 1)
 }
